@@ -16,7 +16,7 @@ if [ "$REPO" != "/repo" ]; then
   MODFLAG="-modfile=$TMPMOD/go.mod"
 fi
 engines="$1"
-[ "$engines" = "all" ] && engines=$(ls engines)
+[ "$engines" = "all" ] && engines=$(cat ../engines.enabled)
 for e in $engines; do
   [ -d "engines/$e" ] || { echo "unknown engine $e" >&2; exit 2; }
   $GO test -c $MODFLAG -tags verif -o "$BIN/$e.test" "./engines/$e"
